@@ -264,6 +264,9 @@ fn main() {
             }
         };
         writeln!(w, "RAW {}", raw(&di)).unwrap();
+        // everything up to here must be on the pipe before derive() runs: if the expansion takes the process down (stack overflow,
+        // abort) the reader finds the culprit as the case with a RAW line and no OUT line
+        w.flush().unwrap();
         let run = |di: &syn::DeriveInput| -> (String, Option<TokenStream>) {
             let r = panic::catch_unwind(panic::AssertUnwindSafe(|| o2o_impl::expand::derive(di)));
             let mut out = String::new();
